@@ -1,10 +1,16 @@
 //! Checks over pure functions (engine E3): generated inputs, real function,
 //! small executable reference model.
 
+pub mod c02;
 pub mod c04;
 pub mod c08;
+pub mod c09;
+pub mod c18;
 
 /// child modes used by subprocess engines; returns Some(exit code) when handled
-pub fn child_mode(_mode: &str, _extra: &[String]) -> Option<i32> {
-    None
+pub fn child_mode(mode: &str, extra: &[String]) -> Option<i32> {
+    match mode {
+        "decode-batch" => Some(c09::child_decode_batch(extra)),
+        _ => None,
+    }
 }
